@@ -73,9 +73,12 @@ PeriodFirstSlot(p) == FirstSlot(PeriodStart(p))
 PeriodLastSlot(p) == FirstSlot(PeriodStart(p + 1)) - 1
 WindowFirst(p, t) == Max(IF PeriodFirstSlot(p) = 0 THEN 0 ELSE PeriodFirstSlot(p) - 1, t)
 Window(p, t) == WindowFirst(p, t) .. (PeriodLastSlot(p) - 1)
-\* Vouch does nothing before the fork epoch; a call may be told to leave the current slot out
-Wanted(c) == IF Epoch(c.at) < fork THEN {}
-             ELSE Window(c.period, c.at) \ (IF c.nc THEN {c.at} ELSE {})
+\* What a Schedule call c = [period, at, nc] must set up and what it may set up.  Before the fork
+\* epoch nothing can be demanded of the call (the fork epoch's own tick does it, C03); a call may
+\* be told to leave the current slot to others (nc).  It may never set up a slot outside the window.
+Required(c) == IF Epoch(c.at) < fork THEN {}
+               ELSE Window(c.period, c.at) \ (IF c.nc THEN {c.at} ELSE {})
+Allowed(c) == Window(c.period, c.at)
 
 (* Subcommittees and the consensus specification's rule (is_sync_committee_aggregator).         *)
 SubSize == shape[1] \div shape[2]
@@ -125,13 +128,17 @@ NewHead(r) ==
     /\ UNCHANGED <<now, fork, shape, target, member, started, sched, prepJobs, msgJobs, aggJobs,
                    prepared, hsig, sel, roots, msgs, contribs>>
 
-\* one prepare job per slot of the window (a slot that already has one keeps it)
-Schedule(e, nc) ==
+\* one prepare job per slot of the window (a slot that already has one keeps it); P = the pending
+\* prepare jobs after the call
+Schedule(e, nc, P) ==
     /\ Known # {}
     /\ Cardinality(sched) < MaxSched
     /\ LET c == [period |-> PeriodOf(e), at |-> now, nc |-> nc] IN
+         /\ prepJobs \subseteq P
+         /\ Required(c) \subseteq P
+         /\ (P \ prepJobs) \subseteq Allowed(c)
          /\ sched' = sched \cup {c}
-         /\ prepJobs' = prepJobs \cup Wanted(c)
+         /\ prepJobs' = P
     /\ started' = TRUE
     /\ UNCHANGED <<now, fork, shape, target, head, member, msgJobs, aggJobs,
                    prepared, hsig, sel, roots, msgs, contribs>>
@@ -180,13 +187,15 @@ FireAggregate(s, C) ==
     /\ contribs' = contribs \cup C
     /\ UNCHANGED <<now, fork, shape, target, head, member, started, sched, prepJobs, msgJobs, prepared, hsig, sel, roots, msgs>>
 
-MemberSpace == [idx : IndexSets, acct : BOOLEAN, zero : BOOLEAN]
+\* (a member without an account has no signature that could fail)
+MemberSpace == {m \in [idx : IndexSets, acct : BOOLEAN, zero : BOOLEAN] : m.acct \/ ~m.zero}
 
 Next ==
     \/ \E v \in Members : \E m \in MemberSpace : AddMember(v, m)
     \/ \E t \in Nows : Advance(t)
     \/ \E r \in Roots : NewHead(r)
-    \/ \E e \in ScheduleEpochs : \E nc \in BOOLEAN : Schedule(e, nc)
+    \/ \E e \in ScheduleEpochs : \E nc \in BOOLEAN :
+          \E W \in SUBSET Window(PeriodOf(e), now) : Schedule(e, nc, prepJobs \cup W)
     \/ \E s \in prepJobs : \E H \in [Requests -> HVals] : FirePrepare(s, H)
     \/ \E s \in msgJobs : \E A \in BOOLEAN : FireMessage(s, A)
     \/ \E s \in aggJobs : \E C \in SUBSET {Contribution(x) : x \in OfSlot(sel, s)} : FireAggregate(s, C)
@@ -203,10 +212,10 @@ Pending == prepJobs \cup prepared
 
 \* C15: a message job chain exists for every slot from the one before the period's first slot
 \* (or from now, if later) to the one before the period's last slot ...
-EverySlotOfWindow == \A c \in sched : Wanted(c) \subseteq Pending
+EverySlotOfWindow == \A c \in sched : Required(c) \subseteq Pending
 
 \* ... and for no other slot (slots before the fork, or of another period)
-OnlySlotsOfWindow == \A s \in Pending : \E c \in sched : s \in Wanted(c)
+OnlySlotsOfWindow == \A s \in Pending : \E c \in sched : s \in Allowed(c)
 
 \* a message job is set up only by the slot's prepare job, an aggregation job only after its messages
 JobOrder ==
